@@ -53,6 +53,8 @@ DESCRIPTION = {
     "real_code": ["sqllineage/config.py (_SQLLineageConfigLoader, the module-level SQLLineageConfig object)", "os.environ"],
     "stubs": ["threading as seen by sqllineage.config: get_ident / enumerate / current_thread / active_count answer with simulated identities (sim/sched.py ThreadingShim); Lock/RLock created by sqllineage code are SimLock scheduling points", "thread scheduling (baton)"],
     "assumptions": [
+        "shared-handle worlds: what a thread reads between its call / enter on a handle that other threads also enter and its own exit is judged loosely (the override may be taken to belong to the caller or to whoever enters); everything after its scope has ended is judged strictly",
+        "fork worlds: the forked child is the forking thread alone; 'a new thread of the child that was given the identifier of parent thread X' is simulated by that thread taking X's identifier through the get_ident seam; fork probes are generated only in worlds without library operations (import locks held by parked threads would be inherited)",
         "accepted override values stay in the documented domain (strings, ints, bools); values a boolean key cannot coerce (None, list, dict) are generated only as attempts that must be rejected without a trace - or, on a tree that coerces them, as a scope opened and closed at once",
         "a bare SQLLineageConfig(**valid) call that is never entered is not generated (the statement does not describe it)",
         "pre-emption at every source line and function return of config.py in 2/3 of the runs and at every bytecode instruction of config.py in 1/3 (the granularity at which the GIL switches); dict/set operations implemented in C are atomic, as under the GIL",
